@@ -40,6 +40,8 @@ let check_err_fields tmpl = function
   | CKUnusedParams l -> [str "check:unused-params"; hx tmpl; names l]
   | CKBadCallParam -> [str "check:bad-call-param"; hx tmpl]
   | CKLoopFunc (f, k) -> [str "check:loop-func"; hx tmpl; hx f; hx k]
+  | CKLoopFuncArity (f, n) -> [str "check:loop-func-arity"; hx tmpl; hx f; n_s n]
+  | CKLoopFuncArg f -> [str "check:loop-func-arg"; hx tmpl; hx f]
   | CKOutOfFuel -> [str "check:fuel"; hx tmpl]
 
 let cerr_fields = function
